@@ -359,6 +359,14 @@ fn get_min_fold_count_limit(carrier: &mut QueryCarrier, fold: &IRFold) -> Option
     result
 }
 
+/// Whether this component, or any fold nested inside it, produces any outputs.
+fn component_has_outputs(component: &IRQueryComponent) -> bool {
+    !component.outputs.is_empty()
+        || component.folds.values().any(|fold| {
+            !fold.fold_specific_outputs.is_empty() || component_has_outputs(&fold.component)
+        })
+}
+
 fn collect_fold_elements<'query, Vertex: Clone + Debug + 'query>(
     mut iterator: ContextIterator<'query, Vertex>,
     max_fold_count_limit: &Option<usize>,
@@ -505,7 +513,9 @@ fn compute_fold<'query, AdapterT: Adapter<'query> + 'query>(
     // of the fold, we can stop computing the rest of the fold after seeing we have 11 elements.
     let min_fold_size =
         if let Some(min_fold_size) = get_min_fold_count_limit(carrier, fold.as_ref()) {
-            let no_outputs_in_fold = fold.component.outputs.is_empty();
+            // Folds nested inside this one produce their outputs per element of this fold,
+            // so their outputs observe every element as well.
+            let no_outputs_in_fold = !component_has_outputs(&fold.component);
             let has_output_on_fold_count =
                 fold.fold_specific_outputs.values().any(|x| *x == FoldSpecificFieldKind::Count);
             let has_tag_on_fold_count = parent_component.vertices.values().any(|vertex| {
@@ -522,7 +532,28 @@ fn compute_fold<'query, AdapterT: Adapter<'query> + 'query>(
                 })
             });
 
-            if no_outputs_in_fold && !has_output_on_fold_count && !has_tag_on_fold_count {
+            // The count may also be tagged and then used by a sibling fold: in a filter
+            // on that fold's own count, or imported into that fold's component.
+            let is_this_fold_count = |field_ref: &FieldRef| match field_ref {
+                FieldRef::FoldSpecificField(tagged) => {
+                    tagged.fold_root_vid == fold.to_vid
+                        && tagged.fold_eid == fold.eid
+                        && tagged.kind == FoldSpecificFieldKind::Count
+                }
+                FieldRef::ContextField(_) => false,
+            };
+            let has_tag_used_by_sibling_fold = parent_component.folds.values().any(|sibling| {
+                sibling.imported_tags.iter().any(is_this_fold_count)
+                    || sibling.post_filters.iter().any(|filter| {
+                        matches!(filter.right(), Some(Argument::Tag(field_ref)) if is_this_fold_count(field_ref))
+                    })
+            });
+
+            if no_outputs_in_fold
+                && !has_output_on_fold_count
+                && !has_tag_on_fold_count
+                && !has_tag_used_by_sibling_fold
+            {
                 Some(min_fold_size)
             } else {
                 None
